@@ -469,7 +469,10 @@ func genTree(rng *rand.Rand, nrec int) *mon.AuditJSON {
 	mk := func(i int) *mon.AuditJSON {
 		a := &mon.AuditJSON{ID: fmt.Sprintf("id%04dxxxxxxxxxxxxxx", i), ProcessName: fmt.Sprintf("proc_%d", i%7), Command: fmt.Sprintf("tool_%d --in ../x_%d.txt > out_%d.txt", i%5, i, i),
 			Params: map[string]string{}, Tags: map[string]string{}, OutFiles: map[string]string{"out": fmt.Sprintf("out_%d.txt", i)}, Upstream: map[string]*mon.AuditJSON{}}
-		switch rng.Intn(5) {
+		switch rng.Intn(6) {
+		case 5:
+			// a fraction of the very second other tasks start on exactly (whole seconds are written without a fraction)
+			a.StartTime = base.Add(time.Duration(rng.Intn(3))*time.Second + time.Duration(50+rng.Intn(900))*time.Millisecond)
 		case 0:
 			a.StartTime = base // equal start times between unrelated tasks
 		case 1:
